@@ -40,26 +40,26 @@ type Event struct {
 
 // Req is one request of a round.
 type Req struct {
-	Q      int          // index within the round
-	G      int          // goroutine slot
-	K      int          // index within the goroutine's program
-	Op     l2.Op        // what was asked
-	Kind   string       // handler name
-	Events []Event      // program order
-	Reply  l2.Reply     // what came back
-	Ended  bool         // the handler returned
-	Skipped bool        // not issued: the container's creation was refused (consistent runtime)
-	Pushed [][]*api.ContainerUpdate
-	St     tr.M         // state projected under the lock right before the request released it (nil: no lock or panic)
-	StErr  string       // panic of the projection
-	prep   *l2.Prepared
+	Q       int      // index within the round
+	G       int      // goroutine slot
+	K       int      // index within the goroutine's program
+	Op      l2.Op    // what was asked
+	Kind    string   // handler name
+	Events  []Event  // program order
+	Reply   l2.Reply // what came back
+	Ended   bool     // the handler returned
+	Skipped bool     // not issued: the container's creation was refused (consistent runtime)
+	Pushed  [][]*api.ContainerUpdate
+	St      tr.M   // state projected under the lock right before the request released it (nil: no lock or panic)
+	StErr   string // panic of the projection
+	prep    *l2.Prepared
 }
 
 type slot struct {
 	goid    uint64
 	cur     *Req
-	held    int  // lock depth of the current request (0 or 1; Go's RWMutex is not re-entrant)
-	quiet   bool // the harness itself is reading (state projection): do not record
+	held    int          // lock depth of the current request (0 or 1; Go's RWMutex is not re-entrant)
+	quiet   bool         // the harness itself is reading (state projection): do not record
 	started atomic.Int64 // unix nanoseconds when the current request started, 0 = idle (watchdog only)
 	_       [64]byte
 }
@@ -67,9 +67,9 @@ type slot struct {
 const maxSlots = 16
 
 var (
-	slots   [maxSlots]slot
-	nslots  int
-	mirror  atomic.Int64
+	slots    [maxSlots]slot
+	nslots   int
+	mirror   atomic.Int64
 	curWorld *l2.World // the world of the running round (read-only during the round)
 )
 
